@@ -73,11 +73,14 @@ class Baton:
                 g = sched.global_step = sched.global_step + 1
                 if client.step_in_op == client.fault_at:
                     sched._fire_fault(client, frame)
-                if g == sched.next_g or client.step_in_op == client.next_point:
+                ng = sched.next_g
+                if (ng >= 0 and g >= ng) or client.step_in_op == client.next_point:
                     sched._consult(client, frame, 'step')
-                if g > sched.step_cap:
+                if g > sched.step_cap and not sched.capped:
                     sched.capped = True
                     sched.next_g = -1
+                    sys.settrace(None)      # run to completion without pre-emption, at full speed
+                    return None
             return local_tr
 
         def global_tr(frame, event, arg):
@@ -85,7 +88,7 @@ class Baton:
             ok = cache.get(co)
             if ok is None:
                 ok = cache[co] = _is_lib_file(co.co_filename)
-            if ok and client.in_op:
+            if ok and client.in_op and not sched.capped:
                 return local_tr
             return None
 
@@ -151,6 +154,7 @@ class Baton:
             self.error = 'client %d never started (hang)' % client.cid
             return
         client.go.clear()
+        self.policy.on_resume(self, client)
         tr = self.tracer_for(client)
         try:
             for i, op in enumerate(client.ops):
@@ -176,7 +180,7 @@ class Baton:
                 self._handover(nxt)
 
     def _run_op(self, client, op, exec_op, tr):
-        sys.settrace(tr)
+        sys.settrace(None if self.capped else tr)
         client.in_op = True
         try:
             res = exec_op(client, op)
